@@ -60,8 +60,12 @@ func checkC02(c *Ctx) {
 		c03Frames(c, p, m)
 		onlySelectedWritten(c, p, m, "R03.2")
 		c01Gates(c, p, m, tags)
+		c01Decision(c, p, m)
+		lockDiscipline(c, p, "R08.7")
 		c13Fanout(c, p, m)
 	}
+	r.Rule("R01.3", "(shared with C01) not admitted means nothing is written: the admission decision function of Level.Enabled equals the documented rule (Off before Always before the order)")
+	r.Rule("R08.7", "(shared with C08) the call returns: every mutex the package acquires is released on every path, and no call made while it is held can come back to it")
 	r.Rule("R10.7", "(shared with C10) whatever the argument list: no function stores into an element of its variadic or []any parameter")
 	r.Rule("R01.1", "(shared with C01) not admitted means no destination is written: every path from an entry point to the Write crosses the admitting edge of the logger's own gate")
 	r.Rule("R13.1", "(shared with C13) every destination selected receives the record: the fan-out loop has its natural exit only, ranges over every member and hands each the whole payload")
@@ -387,6 +391,17 @@ func c02Newline(c *Ctx, p *Prog, m *Model) {
 						if cal := calleeOf(call); cal != nil && cal.Pkg == p.Slog && allBytesWhite(cal) {
 							if _, isMsg := isFieldLoadOf(call.Common().Args[0], "PrintCtx", "msg"); isMsg {
 								ds[i] = `T:call strings.Trim == ""`
+							}
+						}
+					}
+				}
+				// the whole test as a private predicate over the print context
+				if gs := guardsOf(site.Block()); len(gs) == 1 {
+					cond, neg := normCond(gs[0].If.Cond)
+					if call, ok := cond.(*ssa.Call); ok && (gs[0].Succ == 0) != neg {
+						if cal := calleeOf(call); cal != nil && cal.Pkg == p.Slog {
+							if cj, ok := predicateConjuncts(m, cal); ok {
+								ds = cj
 							}
 						}
 					}
@@ -766,4 +781,107 @@ func allBytesWhite(fn *ssa.Function) bool {
 		}
 	}
 	return nTrue == 1 && nFalse == 1
+}
+
+// predicateConjuncts describes a private boolean predicate over the PrintCtx as the conjunction of tests under
+// which it answers true: the guards of its true return plus the leaves of an `a && b` result. ok is false when the
+// predicate has more than one way to answer true or a shape that is not a plain conjunction.
+func predicateConjuncts(m *Model, fn *ssa.Function) (out []string, ok bool) {
+	if fn == nil || len(fn.Blocks) == 0 || len(fn.Params) != 1 || typeName(fn.Params[0].Type()) != "PrintCtx" || fn.Signature.Results().Len() != 1 {
+		return nil, false
+	}
+	if b, isB := fn.Signature.Results().At(0).Type().Underlying().(*types.Basic); !isB || b.Kind() != types.Bool {
+		return nil, false
+	}
+	for _, b := range fn.Blocks {
+		for _, in := range b.Instrs {
+			switch x := in.(type) {
+			case *ssa.Store, *ssa.MapUpdate, *ssa.Go, *ssa.Defer, *ssa.Send:
+				return nil, false
+			case *ssa.Call:
+				cal := calleeOf(x)
+				if cal == nil || !(cal.Pkg != nil && cal.Pkg.Pkg.Path() == "strings" || allBytesWhite(cal)) {
+					return nil, false
+				}
+			}
+		}
+	}
+	leafDesc := func(v ssa.Value) (string, bool) {
+		c, neg := normCond(v)
+		pol := "T:"
+		if neg {
+			pol = "F:"
+		}
+		switch x := c.(type) {
+		case *ssa.BinOp:
+			return pol + m.condDesc(x), true
+		case *ssa.Call:
+			if cal := calleeOf(x); cal != nil && allBytesWhite(cal) && len(x.Common().Args) == 1 {
+				if _, isMsg := isFieldLoadOf(x.Common().Args[0], "PrintCtx", "msg"); isMsg && !neg {
+					return `T:call strings.Trim == ""`, true
+				}
+			}
+			return pol + m.condDesc(x), true
+		}
+		return "", false
+	}
+	alts := 0
+	var walk func(v ssa.Value, at *ssa.BasicBlock, acc []string, depth int) bool
+	walk = func(v ssa.Value, at *ssa.BasicBlock, acc []string, depth int) bool {
+		if depth > 6 {
+			return false
+		}
+		for _, g := range guardsOf(at) {
+			acc = append(acc, m.guardDesc(g))
+		}
+		if k, isC := constBool(v); isC {
+			if k {
+				alts++
+				out = append([]string(nil), acc...)
+			}
+			return true
+		}
+		if ph, isPhi := v.(*ssa.Phi); isPhi {
+			for i, e := range ph.Edges {
+				// the guards of the predecessor subsume those of the join
+				if !walk(e, ph.Block().Preds[i], nil, depth+1) {
+					return false
+				}
+			}
+			return true
+		}
+		d, okd := leafDesc(v)
+		if !okd {
+			return false
+		}
+		alts++
+		out = append(append([]string(nil), acc...), d)
+		return true
+	}
+	for _, b := range fn.Blocks {
+		ret, isRet := b.Instrs[len(b.Instrs)-1].(*ssa.Return)
+		if !isRet {
+			continue
+		}
+		if !walk(ret.Results[0], b, nil, 0) {
+			return nil, false
+		}
+	}
+	if alts != 1 {
+		return nil, false
+	}
+	// allBytesWhite guards taken as an If inside the predicate
+	for i, d := range out {
+		if strings.HasPrefix(d, "T:call ") && strings.Contains(d, "(PrintCtx.msg)") {
+			_ = i
+		}
+	}
+	sort.Strings(out)
+	return out, true
+}
+
+// isBlankRequestPredicate: the predicate answers true exactly for lvl == AlwaysLevel with a trimmed-empty message.
+func isBlankRequestPredicate(m *Model, fn *ssa.Function) bool {
+	cj, ok := predicateConjuncts(m, fn)
+	return ok && strings.Join(cj, "|") == "T:PrintCtx.lvl == AlwaysLevel|"+`T:call strings.Trim == ""`
 }
